@@ -101,6 +101,18 @@ def run_case(case, prefix=None):
     dyn, L, pipe, ana = bool(case["dyn"]), case["plen"], case["pipe"], bool(case["ana"])
     delivered_any = False
     sim.horizon = sim.now + 2000 * MS
+    addrs = pipe_addresses(case)
+    pp = case.get("pingpong")
+    if pp and not lite_t and lk.rx_kind != "lite" and not case.get("perpipe"):
+        # the peer answers every send(): both radios keep switching between RX and TX, the transmitter
+        # listens for the answer on its pipe pp["pipe"]
+        raddr = unhex(pp["addr"])
+        if pp["pipe"] >= 2:
+            tx.open_rx_pipe(1, bytes([raddr[0] ^ 0x5A]) + raddr[1:])
+        tx.open_rx_pipe(pp["pipe"], raddr)
+        tx.open_tx_pipe(addrs[case["pipe"]])  # documented: (re-)open the TX pipe after pipe 0 was given an RX address
+    else:
+        pp = None
     for ci, call in enumerate(case["calls"]):
         objs, befores, exps = [], [], []
         for h, typ in call["items"]:
@@ -184,6 +196,34 @@ def run_case(case, prefix=None):
             # the driver's cached status is stale after an exception: let the next call start clean
             tx.flush_tx()
             tx.clear_status_flags()
+        if pp:
+            res.label("pingpong")
+            reply = unhex(pp["reply"])
+            exp_reply = expected_payload(reply, dyn, L, False)
+            tx.listen = True
+            rx.listen = False
+            rx.open_tx_pipe(raddr)
+            sim.advance(300 * US)
+            try:
+                r2 = rx.send(reply)
+            except SimHorizon:
+                res.fail(P + "/send-does-not-terminate", "reply send()")
+                break
+            sim.advance(300 * US)
+            back = []
+            for _ in range(4):
+                if not tx.available():
+                    break
+                back.append((tx.pipe, None if (d := tx.read()) is None else bytes(d)))
+            if back != [(pp["pipe"], exp_reply)]:
+                res.fail(P + "/pingpong-reply-not-received", "after transmitting, the first radio listened on pipe %d for the answer and read %r, "
+                         "expected %r (answering send() returned %r)" % (pp["pipe"], back, exp_reply, r2))
+            elif case["aa"] and r2 is not True:
+                res.fail(P + "/pingpong-reply-result", "answer delivered but send() returned %r" % (r2,))
+            rx.listen = True
+            tx.listen = False
+            tx.open_tx_pipe(addrs[pipe])
+            sim.advance(300 * US)
     for chip in (T, R):
         if chip.illegal:
             res.fail(P + "/illegal-spi", "%s: %s" % (chip.name, chip.illegal[0]))
@@ -237,6 +277,13 @@ def strategy(drv="full", peer="full"):
                      "seed": draw(st.integers(0, 999))}}
         if not dyn and not lite and draw(st.booleans()):
             c["perpipe"] = [draw(st.integers(1, 32)) for _ in range(6)]
+        if not lite and "perpipe" not in c and draw(st.integers(0, 1)) == 0:
+            ra = bytearray(draw(st.binary(min_size=5, max_size=5)))
+            ra[1] = a1[1] ^ a0[1] ^ draw(st.integers(1, 255)) if (a1[1] ^ a0[1]) else a1[1] ^ 0x33
+            if ra[1] in (a0[1], a1[1]):
+                ra[1] ^= 0x81
+            n = draw(st.integers(1, 32))
+            c["pingpong"] = {"pipe": draw(st.integers(0, 5)), "addr": bytes(ra).hex(), "reply": draw(st.binary(min_size=n, max_size=n)).hex()}
         return c
 
     return case()
